@@ -52,7 +52,13 @@ Example C08_spec_on_a_sample :
       TTerminalIdent {| ti_name := s2l "Ab"; ti_dpos := 29 |}; TDoubleColon 31; TUnderscore 33; TColon 34; TComma 35].
 Proof. vm_compute. reflexivity. Qed.
 
+(* every token is the text found at its own byte offset in the source *)
+Theorem C08_tokens_are_where_they_say : forall src toks, tokenize src = Ok toks ->
+  forall t, In t toks -> exists pre post, src = pre ++ lexeme t ++ post /\ tok_pos t = blen pre.
+Proof. exact tokens_are_where_they_say. Qed.
+
 Print Assumptions C08_punctuation_is_one_token.
+Print Assumptions C08_tokens_are_where_they_say.
 Print Assumptions C08_tokenizer_is_the_lexical_specification.
 Print Assumptions C08_double_colon_is_one_token.
 Print Assumptions C08_stray_character_is_a_lexical_error.
